@@ -299,3 +299,20 @@ MUTANTS += [
     dict(name="c20_sfactor_mean_of_sums", prop="C20", file=PRG, count=2,
          old="    sfactor = np.sqrt(np.mean(X_atom**2, axis=0).sum())", new="    sfactor = np.sqrt(np.mean((X_atom**2).sum(axis=0)))"),
 ]
+
+SSB = "src/skmatter/sample_selection/_base.py"
+MUTANTS += [
+    # ---------------------------------------------------------------- C19
+    dict(name="c19_upper_hull", prop="C19", file=SSB,
+         old="        directional_facets_idx = np.where(y_normal < 0)[0]", new="        directional_facets_idx = np.where(y_normal > 0)[0]"),
+    dict(name="c19_max_for_min_above", prop="C19", file=SSB,
+         old="        directional_distances[~below_directional_convex_hull] = np.min(", new="        directional_distances[~below_directional_convex_hull] = np.max("),
+    dict(name="c19_low_dim_order_ignored", prop="C19", file=SSB,
+         old="        convex_hull_data[:, 1:] = X[:, self.low_dim_idx].copy()", new="        convex_hull_data[:, 1:] = X[:, sorted(self.low_dim_idx)].copy()"),
+    dict(name="c19_vertical_facets_included", prop="C19", file=SSB,
+         old="        directional_facets_idx = np.where(y_normal < 0)[0]", new="        directional_facets_idx = np.where(y_normal <= 1e-3)[0]"),
+    dict(name="c19_below_branch_min", prop="C19", file=SSB,
+         old="        directional_distances[below_directional_convex_hull] = np.max(", new="        directional_distances[below_directional_convex_hull] = -np.max("),
+    dict(name="c19_tolerance_sign", prop="C19", file=SSB,
+         old="            all_directional_distances < -self.tolerance, axis=1", new="            all_directional_distances < self.tolerance + 0.5, axis=1"),
+]
